@@ -5,7 +5,7 @@ borrowed piece of process state: sys.stdout, sys.modules contents, time.sleep)."
 from pyvc.dsl import *
 from pedal.sandbox.sandbox import Sandbox
 from pedal.sandbox.data import SandboxContext
-from pedal.sandbox.tracer import SandboxBasicTracer
+from pedal.sandbox.tracer import SandboxBasicTracer, SandboxNativeTracer
 import sys
 import io
 
@@ -78,16 +78,16 @@ def _stop_mocking(self, context):
              and distinct(self.output, self._current_patches, self._current_stdout))
     requires(patch_groups_hold_objects(self))
     requires(forall(lambda j: is_obj(item(self._current_stdout, j)), 0, nitems(self._current_stdout)))
-    abstract("current_stdout.getvalue", raises=None, ensures=[is_str(result)])
+    abstract("current_stdout.getvalue", raises=ValueError, ensures=[is_str(result)])
     let(np=nitems(self._current_patches))
     let(ns=nitems(self._current_stdout))
     let(top=item(self._current_patches, nitems(self._current_patches) - 1))
     modifies(items(self._current_patches), items(self._current_stdout), ghost('live_patches'), self.raw_output,
              context.output, items(self.output))
-    raises_nothing()
-    ensures("stdout_buffer_popped", nitems(self._current_stdout) == ns - 1)
-    ensures("patch_group_popped", implies(np > 0, nitems(self._current_patches) == np - 1
-                                          and ghost('live_patches') == old(ghost('live_patches')) - seq_len(tuple_items(top))))
+    raises_only(ValueError)
+    on_any_exit("stdout_buffer_popped", nitems(self._current_stdout) == ns - 1)
+    on_any_exit("patch_group_popped", implies(np > 0, nitems(self._current_patches) == np - 1
+                                              and ghost('live_patches') == old(ghost('live_patches')) - seq_len(tuple_items(top))))
 
 
 # ---------------------------------------------------------------------------------------------
